@@ -298,12 +298,17 @@ NEUTRALIZERS = (
 )
 
 
-def attribute(tree, tags, intercept, out, passes):
+def attribute(tree, tags, intercept, out, passes, avail=None):
     """Name the root cause of a failing witness by *confirmation*: the class of a known
     construct is only used when rewriting that construct (and nothing else) into an equivalent
     spelling makes the same check pass; otherwise 'other'. Labels only."""
     if "dot" in tags and not intercept and out[0] == "error" and out[1] == "KeyError":
         return "dot-with-no-intercept-parser"
+    if "dot" in tags and tree[1] is not None and avail:
+        used = {v for p in tree[1] for a in E.atoms_of(p) for v in E.atom_vars(a)}
+        avail2 = tuple(v for v in avail if v not in used)
+        if avail2 != tuple(avail) and passes(tree, avail2):
+            return "dot-does-not-exclude-lhs-variables"
     applicable = [(n, f) for n, ts, f in NEUTRALIZERS if ts & set(tags)]
     for n, f in applicable:
         t2 = f(tree)
@@ -401,22 +406,23 @@ def judge(acc, tree, s, tokens, intercept, flags, avail, ex, do_formula, clause_
             clause, kind, got = f"{clause_prefix}.rejected", "rejected", out[1]
         else:
             clause, kind, got = f"{clause_prefix}.internal-error", f"error:{out[1]}", f"{out[1]}: {out[2]}"
-        def passes(t2):
+        def passes(t2, avail2=None):
             if t2[0] != "formula":
                 return False
             s2 = E.show(t2)
             ex2 = expectation(t2, intercept, avail)
             if ex2.unspecified:
                 return False
+            ctx2 = ctx if avail2 is None else {AVAIL_KEY: list(avail2)}
             if via == "get_terms":
-                o2 = observe(lambda: parser.get_terms(s2, context=ctx))
+                o2 = observe(lambda: parser.get_terms(s2, context=ctx2))
                 return (o2[0] == "ok" and (o2[1] in ex2.pre or any(_sorted_or_none(o2[1], lc) in ex2.post for lc in (False, True)))) or (o2[0] == "reject" and (ex2.allow_reject or ex2.must_reject))
             from formulaic import Formula
 
-            o2 = observe(lambda: Formula(s2, _parser=parser, _context=ctx))
+            o2 = observe(lambda: Formula(s2, _parser=parser, _context=ctx2))
             return (o2[0] == "ok" and o2[1] in ex2.post) or (o2[0] == "reject" and (ex2.allow_reject or ex2.must_reject))
 
-        cls = attribute(tree, tags, intercept, out, passes) + "/" + kind
+        cls = attribute(tree, tags, intercept, out, passes, avail) + "/" + kind
         w = dict(wbase, via=via, observed=got, expected_any_of=exp_plain[:4], code=repro_parse(psrc, s, avail, exp_plain, ex.allow_reject, via))
         acc.fail(clause, cls, w, f"{via}({s!r}) with {psrc}: observed {got!r}; documented algebra gives {exp_plain[:2]!r} ({ex.why})")
 
